@@ -29,6 +29,12 @@ SAN="subjectAltName=DNS:test.com,IP:127.0.0.1\nextendedKeyUsage=serverAuth,clien
 leaf server ca1 "$SAN"
 leaf server_othername ca1 "subjectAltName=DNS:other.example\nextendedKeyUsage=serverAuth,clientAuth\n"
 leaf server_ca2 ca2 "$SAN"
+# a server certificate WITHOUT subjectAltName whose common name is the expected name (subject CN=test.com)
+key server_cnonly_key.pem
+$O req -new -key server_cnonly_key.pem -subj "/C=US/O=Verif/CN=test.com" -out cn.csr
+printf 'extendedKeyUsage=serverAuth,clientAuth\n' > cn.ext
+$O x509 -req -in cn.csr -CA ca1_cert.pem -CAkey ca1_key.pem -CAcreateserial -sha256 -days 36500 -extfile cn.ext -out server_cnonly_cert.pem 2>/dev/null
+rm -f cn.csr cn.ext
 leaf server_expired ca1 "$SAN" 20200101000000Z 20210101000000Z
 leaf server_notyet ca1 "$SAN" 20900101000000Z 20990101000000Z
 CE="extendedKeyUsage=clientAuth,serverAuth\n"
